@@ -1,3 +1,7 @@
-import RaftLogModel.Model.Basic
-import RaftLogModel.Model.Crc32
-import RaftLogModel.Model.Codec
+import RaftLogModel.Model.Text
+import RaftLogModel.Props.C01
+import RaftLogModel.Props.C06
+import RaftLogModel.Props.C11
+import RaftLogModel.Props.C12
+import RaftLogModel.Props.C15
+import RaftLogModel.Props.C16
